@@ -22,6 +22,13 @@ INFO = {
  'C15a': ('C15', 'PedersenVSS::Share: complaint flag reset inside the loop over complaints', 'a cheating dealer with >= 2 complaints (t >= 2) whose bad public answer is not the last one processed'),
  'C02b': ('C02', 'TMCG_CreateCardSecret (key-ring variant): XOR accumulator assigned instead of toggled when already 1', 'QR encoding with three or more players'),
  'C04b': ('C04', 'TMCG_StackSecret::import bijection loop stops at size-1 (same site as C02a, produced for C04)', 'cheating cut-and-choose prover sends an index vector without n-1 and one duplicate'),
+ 'C11a': ('C11', 'TMCG_Card::resize shrink branch resizes to w rows instead of k', 'import / assignment into a used card object with more players, same type bits, k != w'),
+ 'C12b': ('C12', 'MessageParse case 11: MDC split guard tests current_packet.size() instead of ctx.datalen', 'decrypted SEIPD content holding an old-format indeterminate-length literal packet with < 22 data octets in a packet > 22 octets'),
+ 'C20a': ('C20', 'PacketDecodeTag2 parses unhashed subpackets into the real context instead of the scratch one', 'a signature whose unhashed area carries a creation/expiration-time subpacket'),
+ 'C03b': ('C03', 'TMCG_ProveQuadraticResidue answers one challenge less than TMCG_MAX_ZNP_ITERATIONS', 'QR encoding, security level exactly 80'),
+ 'C05b': ('C05', 'Hoogh PUBROTZK::Verify_noninteractive range-checks lambda_k against p instead of q', 'lambda_k + q in a non-interactive rotation proof'),
+ 'C06b': ('C06', 'BarnettSmartVTMF_dlog_GroupQR::CheckGroup tests p = 3 (mod 4) instead of p = 7 (mod 8)', 'a safe prime p = 3 (mod 8) received through the stream constructor'),
+ 'C16b': ('C16', 'NTS::Verify range check on s by absolute value', 'a valid signature with s - q (negative)'),
  'C13a': ('C13', 'aiounicast_select::Receive removes the IV using the last read size', 'first read on an encrypted link ends inside the 16-byte IV'),
 }
 for sid, (prop, what, needs) in INFO.items():
